@@ -43,6 +43,20 @@ type RunResult struct {
 	Sample     any            `json:"sample,omitempty"`
 	Counters   map[string]int `json:"counters,omitempty"`
 	Known      []*Violation   `json:"known,omitempty"`
+	Proc       int            `json:"proc"`
+}
+
+// ProcChoice is a choice made once per worker PROCESS (0 <= result < n), from the SIM_PROC
+// number the orchestrator gives each worker. It is for settings that change process-global state
+// of the system under test (gqlgen's "disable suggestions" swaps a rule in gqlparser's global
+// rule list): all runs of one process agree on them, and a replay in a fresh process is given the
+// same number.
+func ProcChoice(n int) int {
+	v, _ := strconv.Atoi(os.Getenv("SIM_PROC"))
+	if v < 0 {
+		v = -v
+	}
+	return v % n
 }
 
 // Fail records the first violation of a run.
@@ -289,6 +303,7 @@ type ReplayFile struct {
 	Fingerprint string            `json:"fingerprint"`
 	Violation   *Violation        `json:"expected_violation"`
 	Trace       []string          `json:"trace,omitempty"`
+	Proc        int               `json:"proc"`
 }
 
 type out struct{ f *os.File }
@@ -340,6 +355,7 @@ func Main(t *testing.T, scenario string, body func(rc *RunCtx)) {
 			rs := RunSeed(seed, idx)
 			res := RunOne(t, NewTape(rs), scenario, property, tier, body)
 			res.Idx, res.Seed = idx, rs
+			res.Proc, _ = strconv.Atoi(os.Getenv("SIM_PROC"))
 			for k, v := range res.Counters {
 				agg[k] += v
 			}
@@ -365,6 +381,7 @@ func Main(t *testing.T, scenario string, body func(rc *RunCtx)) {
 		if err := json.Unmarshal(b, &rf); err != nil {
 			t.Fatal(err)
 		}
+		os.Setenv("SIM_PROC", strconv.Itoa(rf.Proc))
 		if property == "" {
 			property = rf.Property
 		}
